@@ -151,7 +151,7 @@ def _gen_block(rng, depth, indent, in_loop, budget):
         elif k < 0.74:
             fv = f"fuel{indent}"
             out.append(f"{pad}{fv} = 4")
-            out.append(f"{pad}while {fv} > 0 and {_gen_cond(rng)}:")
+            out.append(f"{pad}while {fv} > 0 and ({_gen_cond(rng)}):")
             out.append(f"{pad}    {fv} -= 1")
             out.append(f"{pad}    n += 1")
             out += _gen_block(rng, depth - 1, indent + 1, True, budget)
@@ -384,7 +384,15 @@ def trace_to_json(t):
     def f(x):
         return x if x != math.inf else "inf"
 
+    extra = {}
+    if t.executed_instructions or t.executed_assertions or t.object_addresses:
+        extra = {
+            "executed_instructions": [[i.file, i.code_object_id, i.node_id, i.opcode, i.lineno, i.instr_original_index] for i in t.executed_instructions],
+            "executed_assertions": [[a.trace_position, repr(a.assertion)] for a in t.executed_assertions],
+            "object_addresses": list(t.object_addresses),
+        }
     return {
+        **extra,
         "executed_code_objects": list(t.executed_code_objects),
         "executed_predicates": {str(k): v for k, v in t.executed_predicates.items()},
         "true_distances": {str(k): f(v) for k, v in t.true_distances.items()},
